@@ -27,7 +27,7 @@ func TestMain(m *testing.M) {
 		"delay precedence model with until-for bracketed by harness time stamps, and exact Prometheus sample counts from a private registry. Non-trivial: stack depth >= 2, or a batch mixing delay sources, or a non-success outcome."+
 		" Subscriber stacks: 1 of 3 cases leaves an unread message in the stack when the subscription ends (Close, or cancel then Close): it is in no metrics count.")
 	lib.Extra("assumptions", []string{
-		"every message object is published once (Message godoc); empty batches are passed through uncounted by design",
+		"every message object is published in one call only (one call may list it twice); empty batches are passed through uncounted by design",
 		"label values other than success/acked are summed over; the handler middleware is installed once (idempotency is a property of the decorators, not of the middleware)",
 		"metrics of received messages are counted asynchronously: the check waits (bounded) for the expected total, then a grace window, then demands equality",
 	})
@@ -44,7 +44,7 @@ type pubLayer struct {
 }
 
 type msgSpec struct {
-	Source int // 0 none, 1 metadata preset, 2 ctx For, 3 ctx Until
+	Source int // 0 none, 1 metadata preset, 2 ctx For, 3 ctx Until, 4 metadata preset by another producer: delayed-for only
 	DurMs  int64
 }
 
@@ -70,7 +70,7 @@ func genPubCase(t *rapid.T) pubCase {
 		var batch []msgSpec
 		k := rapid.IntRange(1, 5).Draw(t, "batchSize")
 		for i := 0; i < k; i++ {
-			ms := msgSpec{Source: rapid.SampledFrom([]int{0, 0, 1, 2, 2, 3}).Draw(t, "delaySource")}
+			ms := msgSpec{Source: rapid.SampledFrom([]int{0, 0, 1, 2, 2, 3, 4}).Draw(t, "delaySource")}
 			ms.DurMs = rapid.SampledFrom([]int64{0, 1, 1500, -5000, 3600000 * 24 * 365, 250}).Draw(t, "delayMs")
 			batch = append(batch, ms)
 		}
@@ -185,6 +185,11 @@ func TestPublisherStacks(t *testing.T) {
 					e.after = time.Now()
 					e.kind = "untouched"
 					e.presetFor, e.pUnt = m.Metadata.Get(delay.DelayedForKey), m.Metadata.Get(delay.DelayedUntilKey)
+				case 4:
+					// a delay that is already in the metadata (the delayed-for key is what says so) stays as it is
+					m.Metadata[delay.DelayedForKey] = d.String()
+					e.kind = "untouched"
+					e.presetFor, e.pUnt = d.String(), ""
 				case 2:
 					e.before = time.Now()
 					m.SetContext(delay.WithContext(context.Background(), delay.For(d)))
@@ -219,6 +224,10 @@ func TestPublisherStacks(t *testing.T) {
 			}
 			if !hasDelay {
 				refuse = ""
+			}
+			if !hasDelay && nTransform == 0 && (bi+len(batch))%3 == 0 {
+				// one call may list a message object twice (a handler that returns its output twice): it is one call all the same
+				msgs = append(msgs, msgs[len(msgs)-1])
 			}
 			fail := c.FailCall[bi]
 			inner.OnPublish = func(pc *lib.PubCall) error {
